@@ -87,6 +87,13 @@ func (r Recipe) Expand() []byte {
 		case "random":
 			b := make([]byte, s.Len)
 			NewPRNG(s.Seed).Fill(b)
+			if s.K >= 2 && s.K <= 255 {
+				// uniform over K of the 256 byte values: almost incompressible
+				// (a compressed chunk gains a fraction of a percent or loses)
+				for i := range b {
+					b[i] = byte(int(b[i]) * s.K >> 8)
+				}
+			}
 			out = append(out, b...)
 		case "text":
 			k := s.K
@@ -271,6 +278,9 @@ func SegOf(t *rapid.T, n int, sofar int, kinds []string) Seg {
 		s.B = rapid.Byte().Draw(t, "b")
 	case "random":
 		s.Seed = rapid.Uint64().Draw(t, "seed")
+		if rapid.IntRange(0, 3).Draw(t, "nearinc") == 0 {
+			s.K = rapid.SampledFrom([]int{128, 200, 220, 226, 230, 234, 240, 248, 252, 255}).Draw(t, "alphabet")
+		}
 	case "text":
 		s.Seed = rapid.Uint64().Draw(t, "seed")
 		s.K = rapid.SampledFrom([]int{1, 2, 4, 26}).Draw(t, "k")
